@@ -11,6 +11,7 @@ resp <nUp> <fb> <rules>            set the response program  → dump of the com
 rq   n:<name> <qtype> rx:<ids>     RequestMatcher.Match      → hit:<byte> | nohit
 rs   n:<name> <qtype> <from> ips:<addrs> rx:<ids>            → hit:<byte> | nohit | emptyname
 cfg  <nUp> <reqfb> <reqrules> <respfb> <resprules> [urls:…]  → ok | builderr
+dq   n:<host> <4|6|46> rx:<ids>    daedns.Router.LookupIPAddr → per asked type: <qtype>=u<k> | <qtype>=pass
 depth <N>                          MaxDnsLookupDepth of the code under test → ok
 ask  <dst> <isResp> <q|noq> n:<name> <qtype> rx:<ids> ip:<0|1> seed:<entries> ans:<table>
                                                              → trace=… reply=… | cache=… err=…
@@ -329,6 +330,18 @@ def handleLine (st : St) (line : String) : St × String :=
              else matchResStr r)
       | none => (st, "bad-op")
     | _, _, _, _, _, _ => (st, "bad-op")
+  | ["dq", name, ver, rx] =>
+    match parseName name, parseList "rx:" rx, st.reqProg with
+    | some host, some rx, some P =>
+      if st.reqSrc.isEmpty then (st, "norouter") else
+      let cfg : Cfg := { nUp := st.nUp, req := P, resp := P }
+      let one (qt : Nat) : String :=
+        match daednsSelect cfg host qt rx with
+        | .up k => s!"{qt}=u{k}"
+        | _ => s!"{qt}=pass"       -- passthrough, or an error for this type: nobody is asked
+      let types := if ver == "4" then [1] else if ver == "6" then [28] else [1, 28]
+      (st, " ".intercalate (types.map one))
+    | _, _, _ => (st, "bad-op")
   | ["depth", n] =>
     match n.toNat? with
     | some n => ({ st with maxDepth := n }, "ok")
